@@ -2,6 +2,8 @@ import Skglm.Driver.OpsCD
 import Skglm.Model.BCD
 import Skglm.Model.ProxNewton
 import Skglm.Model.Cox
+import Skglm.Model.MultiTask
+import Skglm.Model.GramCD
 /-
   Driver operations for the block coordinate-descent moves (GroupBCD), the prox-Newton backtracking
   line search and the Cox sweeps.
@@ -30,6 +32,68 @@ def pGrpProb : P ((n : Nat) × (p : Nat) × GrpProb Float n p) := do
 def pDir (n p : Nat) : P (PNDir Float n p) := do
   let dw ← pVecN p; let db ← pFloat; let Xd ← pVecN n
   pure { dw := dw, db := db, Xd := Xd }
+
+def pMatRC (r c : Nat) : P (Fin r → Fin c → Float) := pMatNP r c
+
+def pMTProb : P ((n : Nat) × (p : Nat) × (T : Nat) × MTProb Float n p T) := do
+  let n ← pNat; let p ← pNat; let T ← pNat
+  let X ← pMatNP n p; let Y ← pMatNP n T
+  let pen ← pBlk; let lips ← pVecN p; let fi ← pBool
+  pure ⟨n, p, T, { X := X, Y := Y, pen := pen, lips := lips, fitInt := fi }⟩
+
+def pMTState (n p T : Nat) : P (MTState Float n p T) := do
+  let W ← pMatNP p T; let b ← pVecN T; let XW ← pMatNP n T
+  pure { W := W, b := b, XW := XW }
+
+def fmtMTState {n p T : Nat} (s : MTState Float n p T) : String :=
+  " ".intercalate ([fmtMat s.W, fmtVec s.b, fmtMat s.XW].filter (· ≠ ""))
+
+def pGramProb : P ((p : Nat) × GramProb Float p) := do
+  let p ← pNat; let G ← pMatNP p p; let q ← pVecN p; let c ← pFloat
+  let pen ← pPen; let wts ← pVecN p
+  pure ⟨p, { G := G, q := q, c := c, pen := pen, wts := wts }⟩
+
+def pGramState (p : Nat) : P (GramState Float p) := do
+  let w ← pVecN p; let g ← pVecN p
+  pure { w := w, grad := g }
+
+def fmtGramState {p : Nat} (s : GramState Float p) : String :=
+  " ".intercalate ([fmtVec s.w, fmtVec s.grad].filter (· ≠ ""))
+
+def solverOps2 (op : String) : Option (P String) :=
+  match op with
+  | "mt_epoch" => some do
+      let ⟨n, p, T, P⟩ ← pMTProb; let s ← pMTState n p T; let ws ← pWs p
+      pure (fmtMTState (P.mtEpoch s ws))
+  | "mt_intercept" => some do
+      let ⟨n, p, T, P⟩ ← pMTProb; let s ← pMTState n p T
+      pure (fmtMTState (P.interceptMove s))
+  | "mt_obj" => some do
+      let ⟨n, p, T, P⟩ ← pMTProb; let s ← pMTState n p T
+      pure (fmtE (P.objective s))
+  | "mt_lips" => some do
+      let n ← pNat; let p ← pNat; let X ← pMatNP n p
+      pure (fmtVec (fun j => mtLipschitz X j))
+  | "mt_grad" => some do
+      let ⟨n, p, T, P⟩ ← pMTProb; let s ← pMTState n p T
+      pure (fmtMat (fun j => P.gradientJ s.XW j))
+  | "gram_ofdata" => some do   -- G (row-major), q, c
+      let n ← pNat; let p ← pNat; let X ← pMatNP n p; let y ← pVecN n
+      let P := GramProb.ofData X y (.l1 0 false) (fun _ => 1)
+      pure (" ".intercalate ([fmtMat P.G, fmtVec P.q, fmt P.c].filter (· ≠ "")))
+  | "gram_epoch" => some do
+      let ⟨p, P⟩ ← pGramProb; let s ← pGramState p; let js ← pWs p
+      pure (fmtGramState (P.gramEpoch s js))
+  | "gram_epoch_greedy" => some do
+      let ⟨p, P⟩ ← pGramProb; let s ← pGramState p
+      pure (fmtGramState (P.gramEpochGreedy s))
+  | "gram_obj" => some do      -- stored p_obj, acceptance-test value, stop criterion
+      let ⟨p, P⟩ ← pGramProb; let s ← pGramState p
+      pure (fmtE (P.objective s.w) ++ " " ++ fmtE (P.objNoConst s.w) ++ " " ++ fmtE (P.stopCrit s))
+  | "gram_init" => some do
+      let ⟨p, P⟩ ← pGramProb; let w0 ← pVecN p
+      pure (fmtGramState (P.initWarm w0))
+  | _ => none
 
 def solverOps (op : String) : Option (P String) :=
   match op with
